@@ -17,7 +17,8 @@ RULE = (
     "comments set off by white space for ISIS/default); plus every loadable "
     "tests/data label split at the lexer's token boundaries and re-laid-out "
     "(white-space gaps replaced by other white space / comment runs) 20 (quick) "
-    "or 400 (thorough) times. distinct = (reader, "
+    "or 400 (thorough) times; plus documents with missing values under the "
+    "two permissive readers. distinct = (reader, "
     "document seed, layout index); non-trivial = layout differs from plain. "
     "coverage.triples counts (token kind, separator class, token kind)"
 )
@@ -78,6 +79,65 @@ def case(rec, pvl, reader, key):
                        "text": text[:1200]},
                       f"{st2}: {str(m2)[:200]}" if st2 != "ok" else
                       str(gt.same_tree(doc.tree, m2)))
+
+
+def missing_case(rec, pvl, reader, key):
+    """Labels with missing values load under the permissive readers (C08); a
+    label that loads must keep loading, to the same statements, whatever white
+    space and comments stand between its tokens (the placeholders' line numbers
+    follow the layout and are not compared)."""
+    from .c08 import assignments, clone_tree, preorder
+    rng = random.Random(key)
+    while True:
+        doc = gt.gen_document(rng, reader, max_top=5)
+        if not any(c == "seq-inside-set" for c, _ in doc.meta):
+            break
+    asg = assignments(doc)
+    if not asg:
+        return
+    chosen = rng.sample(asg, rng.randint(1, min(3, len(asg))))
+    drop = set()
+    for sid, vals, eqi in chosen:
+        drop.update(vals)
+    toks = [t for i, t in enumerate(doc.tokens) if i not in drop]
+    tree = clone_tree(doc.tree)
+    order = preorder(tree, [])
+    for sid, vals, eqi in chosen:
+        lst, idx = order[sid - 1]
+        lst[idx] = (lst[idx][0], gt.Missing())
+    plain = gt.plain_layout(toks)
+    st, base = load(pvl, reader, gt.render(toks, plain))
+    if not (st == "ok" and gt.same_tree(tree, base) is None):
+        rec.count("base_document_not_judged_here")    # C08's subject
+        return
+    for li in range(LAYOUTS):
+        seps = gt.gen_layout(rng, toks, reader, "wild")
+        text = gt.render(toks, seps)
+        rec.case((reader, key, "missing", li), seps != plain)
+        rec.count(f"layouts_with_missing_values[{reader}]")
+        st2, m2 = load(pvl, reader, text)
+        if st2 == "timeout":
+            rec.inconc(f"CPU budget exceeded: {key}/{li}")
+            continue
+        if st2 == "ok" and gt.same_tree(tree, m2) is None:
+            continue
+
+        def fails(s2):
+            a, b = load(pvl, reader, gt.render(toks, s2))
+            return not (a == "ok" and gt.same_tree(tree, b) is None)
+
+        culprits, cur = minimise_layout(toks, seps, plain, fails)
+        feats = gap_feature(toks, cur, culprits[0]) if culprits else \
+            {"prev": "?", "sep": "?", "next": "?"}
+        feats["effect"] = "load-fails" if st2 != "ok" else "module-differs"
+        feats["label_has_missing_values"] = True
+        rec.violation(CHECK, reader, "layout-changes-result", feats,
+                      {"reader": reader, "seed": key, "layout": li,
+                       "minimal_text": gt.render(toks, cur),
+                       "culprit_separator": cur[culprits[0]] if culprits else None,
+                       "text": text[:1200]},
+                      f"{st2}: {str(m2)[:200]}" if st2 != "ok" else
+                      str(gt.same_tree(tree, m2)))
 
 
 # --------------------------------------------------------------------------
@@ -229,6 +289,8 @@ def shard(i, n, tier, seed, rec, hb):
             for j in range(i, per, n):
                 hb.beat()
                 case(rec, pvl, which, f"C04-{seed}-{which}-{j}")
+                if which in ("default", "ISIS") and j % 3 == 0:
+                    missing_case(rec, pvl, which, f"C04-mv-{seed}-{which}-{j}")
     for k, (name, text) in enumerate(corpus_files(pvl)):
         if k % n != i:
             continue
@@ -243,6 +305,8 @@ def finish_kwargs(rec, tier):
     return dict(extra_cov={"distinct_triples": len(triples), "triples": triples},
                 required_counters=[f"layouts[{r}]" for r in gt.READERS]
                 + ["gaps_exercised", "corpus_labels_relaid",
+                   "layouts_with_missing_values[default]",
+                   "layouts_with_missing_values[ISIS]",
                    "corpus_layouts_agree", "corpus_gaps_replaced"],
                 assumptions=["gap rules of DESIGN 3.3: white space optional "
                              "around = , ( ) { } ; before <units> and after a "
